@@ -251,4 +251,728 @@ theorem validate_check_ok (ebgp : Bool) (reach mpReach : Option Reach) (unreach 
       exact hd e he hnm a ha' hcode.symm
     simp only [hkept, Bool.false_eq_true, if_false]
 
+/-! ## the attribute loop never both keeps and reports an attribute -/
+
+structure LoopInv (s : AState) : Prop where
+  attrsSeen : ∀ a ∈ s.attrs, a.code ∈ s.seen
+  errsSeen : ∀ e ∈ s.errs, e.1 ∈ s.seen
+  disjoint : ∀ a ∈ s.attrs, ∀ e ∈ s.errs, a.code ≠ e.1
+  errOctets : ∀ e ∈ s.errs, e.2 < 256
+
+theorem LoopInv.init (pos : Nat) : LoopInv { pos := pos } :=
+  ⟨by simp, by simp, by simp, by simp⟩
+
+theorem attrStore_attrs (two : Bool) (s : AState) (a : Attr) :
+    ((attrStore two s a).attrs = s.attrs ∨
+      ((attrStore two s a).attrs = s.attrs ++ [a] ∧ a.code ≠ 14 ∧ a.code ≠ 15)) ∧
+    (attrStore two s a).errs = s.errs ∧ (attrStore two s a).seen = s.seen := by
+  unfold attrStore
+  split
+  · exact ⟨Or.inl rfl, rfl, rfl⟩
+  · split
+    · exact ⟨Or.inl rfl, rfl, rfl⟩
+    · split
+      · exact ⟨Or.inl rfl, rfl, rfl⟩
+      · split
+        · exact ⟨Or.inl rfl, rfl, rfl⟩
+        · rename_i h14 h15 _ _
+          exact ⟨Or.inr ⟨rfl, h14, h15⟩, rfl, rfl⟩
+
+/-- precondition of handling attribute `code` for the first time -/
+structure Fresh (s : AState) (code : Nat) : Prop where
+  inv : LoopInv s
+  seen : code ∈ s.seen
+  noAttr : ∀ a ∈ s.attrs, a.code ≠ code
+  errOnlyMp : ∀ e ∈ s.errs, e.1 = code → code = 14 ∨ code = 15
+
+theorem attrDecoded_inv (two : Bool) (buf : Bytes) (s : AState) (flags code alen pos : Nat)
+    (hf : Fresh s code) (hfl : flags < 256) : LoopInv (attrDecoded two buf s flags code alen pos) := by
+  unfold attrDecoded
+  split
+  · rename_i d _
+    have hst := attrStore_attrs two { s with pos := pos + alen } ⟨code, flags, d⟩
+    obtain ⟨hattrs, herrs, hseen⟩ := hst
+    rcases hattrs with ha | ⟨ha, h14, h15⟩
+    · exact ⟨by rw [ha, hseen]; exact hf.inv.attrsSeen, by rw [herrs, hseen]; exact hf.inv.errsSeen,
+        by rw [ha, herrs]; exact hf.inv.disjoint, by rw [herrs]; exact hf.inv.errOctets⟩
+    · refine ⟨?_, by rw [herrs, hseen]; exact hf.inv.errsSeen, ?_, by rw [herrs]; exact hf.inv.errOctets⟩
+      · rw [ha, hseen]
+        intro a ha'
+        simp only [List.mem_append, List.mem_singleton] at ha'
+        rcases ha' with h | rfl
+        · exact hf.inv.attrsSeen a h
+        · exact hf.seen
+      · rw [ha, herrs]
+        intro a ha' e he
+        simp only [List.mem_append, List.mem_singleton] at ha'
+        rcases ha' with h | rfl
+        · exact hf.inv.disjoint a h e he
+        · intro heq
+          have := hf.errOnlyMp e he heq.symm
+          simp only at h14 h15
+          omega
+  · split
+    · refine ⟨hf.inv.attrsSeen, ?_, ?_, ?_⟩
+      · intro e he
+        simp only [List.mem_append, List.mem_singleton] at he
+        rcases he with h | rfl
+        · exact hf.inv.errsSeen e h
+        · exact hf.seen
+      · intro a ha e he
+        simp only [List.mem_append, List.mem_singleton] at he
+        rcases he with h | rfl
+        · exact hf.inv.disjoint a ha e h
+        · exact hf.noAttr a ha
+      · intro e he
+        simp only [List.mem_append, List.mem_singleton] at he
+        rcases he with h | rfl
+        · exact hf.inv.errOctets e h
+        · exact hfl
+    · exact ⟨hf.inv.attrsSeen, hf.inv.errsSeen, hf.inv.disjoint, hf.inv.errOctets⟩
+
+theorem Fresh.addErr {s : AState} {code flags : Nat} (hf : Fresh s code) (hfl : flags < 256) (hmp : code = 14 ∨ code = 15) :
+    Fresh { s with errs := s.errs ++ [(code, flags)] } code := by
+  refine ⟨⟨hf.inv.attrsSeen, ?_, ?_, ?_⟩, hf.seen, hf.noAttr, ?_⟩
+  · intro e he
+    simp only [List.mem_append, List.mem_singleton] at he
+    rcases he with h | rfl
+    · exact hf.inv.errsSeen e h
+    · exact hf.seen
+  · intro a ha e he
+    simp only [List.mem_append, List.mem_singleton] at he
+    rcases he with h | rfl
+    · exact hf.inv.disjoint a ha e h
+    · exact hf.noAttr a ha
+  · intro e he
+    simp only [List.mem_append, List.mem_singleton] at he
+    rcases he with h | rfl
+    · exact hf.inv.errOctets e h
+    · exact hfl
+  · intro e he _
+    exact hmp
+
+theorem attrKnown_inv (two : Bool) (buf : Bytes) (s : AState) (flags code alen pos expected : Nat)
+    (hf : Fresh s code) (hfl : flags < 256) : LoopInv (attrKnown two buf s flags code alen pos expected) := by
+  unfold attrKnown
+  by_cases hfc : flagsConflict flags expected = true
+  · simp only [hfc, if_true, true_and]
+    split
+    · -- skipped with an error record
+      refine ⟨hf.inv.attrsSeen, ?_, ?_, ?_⟩
+      · intro e he
+        simp only [List.mem_append, List.mem_singleton] at he
+        rcases he with h | rfl
+        · exact hf.inv.errsSeen e h
+        · exact hf.seen
+      · intro a ha e he
+        simp only [List.mem_append, List.mem_singleton] at he
+        rcases he with h | rfl
+        · exact hf.inv.disjoint a ha e h
+        · exact hf.noAttr a ha
+      · intro e he
+        simp only [List.mem_append, List.mem_singleton] at he
+        rcases he with h | rfl
+        · exact hf.inv.errOctets e h
+        · exact hfl
+    · rename_i hmp
+      have hmp' : code = 14 ∨ code = 15 := by omega
+      exact attrDecoded_inv two buf _ flags code alen pos (hf.addErr hfl hmp') hfl
+  · simp only [hfc, if_false, false_and, Bool.false_eq_true]
+    exact attrDecoded_inv two buf s flags code alen pos hf hfl
+
+theorem attrUnknown_inv (buf : Bytes) (s : AState) (flags code alen pos : Nat)
+    (hf : Fresh s code) (hfl : flags < 256) (hnone : ∀ e ∈ s.errs, e.1 ≠ code) :
+    ∀ s', attrUnknown buf s flags code alen pos = .ok s' → LoopInv s' := by
+  intro s' h
+  unfold attrUnknown at h
+  split at h
+  · injection h with h; subst h
+    refine ⟨hf.inv.attrsSeen, ?_, ?_, ?_⟩
+    · intro e he
+      simp only [List.mem_append, List.mem_singleton] at he
+      rcases he with h | rfl
+      · exact hf.inv.errsSeen e h
+      · exact hf.seen
+    · intro a ha e he
+      simp only [List.mem_append, List.mem_singleton] at he
+      rcases he with h | rfl
+      · exact hf.inv.disjoint a ha e h
+      · exact hf.noAttr a ha
+    · intro e he
+      simp only [List.mem_append, List.mem_singleton] at he
+      rcases he with h | rfl
+      · exact hf.inv.errOctets e h
+      · exact hfl
+  · split at h
+    · split at h
+      · cases h
+      · cases hs : slice buf pos (pos + alen) with
+        | ok raw =>
+          simp only [hs, Out.bind_ok] at h
+          injection h with h; subst h
+          refine ⟨?_, hf.inv.errsSeen, ?_, hf.inv.errOctets⟩
+          · intro a ha
+            simp only [List.mem_append, List.mem_singleton] at ha
+            rcases ha with h | rfl
+            · exact hf.inv.attrsSeen a h
+            · exact hf.seen
+          · intro a ha e he
+            simp only [List.mem_append, List.mem_singleton] at ha
+            rcases ha with h | rfl
+            · exact hf.inv.disjoint a h e he
+            · exact (hnone e he).symm
+        | err e => simp [hs] at h
+        | panic => simp [hs] at h
+    · injection h with h; subst h
+      exact ⟨hf.inv.attrsSeen, hf.inv.errsSeen, hf.inv.disjoint, hf.inv.errOctets⟩
+
+theorem attrBody_inv (two : Bool) (buf : Bytes) (s : AState) (flags code alen pos : Nat)
+    (hi : LoopInv s) (hfl : flags < 256) :
+    ∀ s', attrBody two buf s flags code alen pos = .ok s' → LoopInv s' := by
+  intro s' h
+  unfold attrBody at h
+  split at h
+  · split at h
+    · cases h
+    · injection h with h; subst h
+      exact ⟨hi.attrsSeen, hi.errsSeen, hi.disjoint, hi.errOctets⟩
+  · rename_i hns
+    have hns' : code ∉ s.seen := by simpa using hns
+    have hnoErr : ∀ e ∈ s.errs, e.1 ≠ code := fun e he heq => hns' (heq ▸ hi.errsSeen e he)
+    have hfresh : Fresh { s with seen := code :: s.seen } code := by
+      refine ⟨⟨?_, ?_, hi.disjoint, hi.errOctets⟩, by simp, ?_, ?_⟩
+      · intro a ha; exact List.mem_cons_of_mem _ (hi.attrsSeen a ha)
+      · intro e he; exact List.mem_cons_of_mem _ (hi.errsSeen e he)
+      · intro a ha heq; exact hns' (heq ▸ hi.attrsSeen a ha)
+      · intro e he heq; exact absurd heq (hnoErr e he)
+    simp only at h
+    split at h
+    · injection h with h; subst h
+      exact attrKnown_inv two buf _ flags code alen pos _ hfresh hfl
+    · exact attrUnknown_inv buf _ flags code alen pos hfresh hfl hnoErr s' h
+
+theorem rd8_lt {buf : Bytes} (hb : ∀ x ∈ buf, x < 256) {i v : Nat} (h : rd8 buf i = .ok v) : v < 256 := by
+  unfold rd8 at h
+  split at h
+  · rename_i w hw
+    injection h with h; subst h
+    exact hb _ (List.mem_of_getElem? hw)
+  · cases h
+
+theorem attrHeader_flags {buf : Bytes} (hb : ∀ x ∈ buf, x < 256) {attrEnd pos f c alen p' : Nat}
+    (h : attrHeader buf attrEnd pos = .ok (.hdr f c alen p')) : f < 256 := by
+  unfold attrHeader at h
+  split at h
+  · cases h
+  · cases h0 : rd8 buf pos with
+    | ok fl =>
+      have hfl := rd8_lt hb h0
+      cases h1 : rd8 buf (pos + 1) with
+      | ok cd =>
+        simp only [h0, h1, Out.bind_ok] at h
+        split at h
+        · split at h
+          · cases h
+          · cases h2 : rd16 buf (pos + 2) with
+            | ok al => simp only [h2, Out.bind_ok] at h; injection h with h; injection h with h; subst h; exact hfl
+            | err e => simp [h2] at h
+            | panic => simp [h2] at h
+        · split at h
+          · cases h
+          · cases h2 : rd8 buf (pos + 2) with
+            | ok al => simp only [h2, Out.bind_ok] at h; injection h with h; injection h with h; subst h; exact hfl
+            | err e => simp [h2] at h
+            | panic => simp [h2] at h
+      | err e => simp [h0, h1] at h
+      | panic => simp [h0, h1] at h
+    | err e => simp [h0] at h
+    | panic => simp [h0] at h
+
+theorem attrLoop_inv (two : Bool) (buf : Bytes) (hb : ∀ x ∈ buf, x < 256) (attrEnd : Nat) :
+    ∀ fuel (s : AState), LoopInv s → ∀ s', attrLoop two buf attrEnd fuel s = .ok s' → LoopInv s' := by
+  intro fuel
+  induction fuel with
+  | zero => intro s _ s' h; simp [attrLoop] at h
+  | succ fuel ih =>
+    intro s hi s' h
+    unfold attrLoop at h
+    split at h
+    · cases hh : attrHeader buf attrEnd s.pos with
+      | ok hd =>
+        simp only [hh, Out.bind_ok] at h
+        cases hd with
+        | brk pos =>
+          injection h with h; subst h
+          exact ⟨hi.attrsSeen, hi.errsSeen, hi.disjoint, hi.errOctets⟩
+        | hdr flags code alen pos =>
+          simp only at h
+          split at h
+          · injection h with h; subst h
+            exact ⟨hi.attrsSeen, hi.errsSeen, hi.disjoint, hi.errOctets⟩
+          · cases hbv : attrBody two buf s flags code alen pos with
+            | ok s1 =>
+              simp only [hbv, Out.bind_ok] at h
+              exact ih s1 (attrBody_inv two buf s flags code alen pos hi (attrHeader_flags hb hh) s1 hbv) s' h
+            | err e => simp [hbv] at h
+            | panic => simp [hbv] at h
+      | err e => simp [hh] at h
+      | panic => simp [hh] at h
+    · injection h with h; subst h; exact hi
+
+/-! ## from the loop to the parse result -/
+
+theorem bind_eq_ok {α β} {x : Out α} {f : α → Out β} {b : β} (h : (x >>= f) = .ok b) :
+    ∃ a, x = .ok a ∧ f a = .ok b := by
+  cases x with
+  | ok a => exact ⟨a, rfl, h⟩
+  | err e => cases h
+  | panic => cases h
+
+theorem reconcileAgg_codes {as4Agg : Option Attr} {l : List Attr} {r : Bool × List Attr}
+    (h : reconcileAgg as4Agg l = .ok r) : ∀ a ∈ r.2, ∃ b ∈ l, b.code = a.code := by
+  unfold reconcileAgg at h
+  split at h
+  · rename_i a4 agg he
+    obtain ⟨asn, _, h⟩ := bind_eq_ok h
+    split at h
+    · obtain ⟨bin, _, h⟩ := bind_eq_ok h
+      obtain ⟨l', hm, h⟩ := bind_eq_ok h
+      injection h with h; subst h
+      intro a ha
+      rcases mapFirst_mem _ _ _ _ hm a ha with h1 | ⟨x, hx, hc, hfx⟩
+      · exact ⟨a, h1, rfl⟩
+      · injection hfx with hfx; subst hfx
+        exact ⟨x, hx, hc⟩
+    · injection h with h; subst h
+      exact fun a ha => ⟨a, ha, rfl⟩
+  · injection h with h; subst h
+    exact fun a ha => ⟨a, ha, rfl⟩
+
+theorem reconcilePath_codes {as4Path : Option Attr} {l l' : List Attr}
+    (h : reconcilePath as4Path l = .ok l') : ∀ a ∈ l', ∃ b ∈ l, b.code = a.code := by
+  unfold reconcilePath at h
+  split at h
+  · injection h with h; subst h
+    exact fun a ha => ⟨a, ha, rfl⟩
+  · intro a ha
+    rcases mapFirst_mem _ _ _ _ h a ha with h1 | ⟨x, hx, hc, hfx⟩
+    · exact ⟨a, h1, rfl⟩
+    · obtain ⟨p, _, hfx⟩ := bind_eq_ok hfx
+      obtain ⟨p4, _, hfx⟩ := bind_eq_ok hfx
+      obtain ⟨m, _, hfx⟩ := bind_eq_ok hfx
+      injection hfx with hfx; subst hfx
+      exact ⟨x, hx, hc⟩
+
+theorem reconcileAs4_codes {l l' : List Attr} (h : reconcileAs4 l = .ok l') :
+    ∀ a ∈ l', ∃ b ∈ l, b.code = a.code := by
+  unfold reconcileAs4 at h
+  simp only at h
+  obtain ⟨r, hr, h⟩ := bind_eq_ok h
+  have r1 := removeFirst_spec 17 l
+  have r2 := removeFirst_spec 18 (removeFirst 17 l).2
+  have hagg := reconcileAgg_codes hr
+  have lift : ∀ a ∈ r.2, ∃ b ∈ l, b.code = a.code := by
+    intro a ha
+    obtain ⟨b, hb, hc⟩ := hagg a ha
+    exact ⟨b, r1.2 b (r2.2 b hb), hc⟩
+  split at h
+  · injection h with h; subst h; exact lift
+  · intro a ha
+    obtain ⟨b, hb, hc⟩ := reconcilePath_codes h a ha
+    obtain ⟨b', hb', hc'⟩ := lift b hb
+    exact ⟨b', hb', hc'.trans hc⟩
+
+theorem assemble_update {two : Bool} {s : AState} {errs : List (Nat × Nat)} {reach unreach : List PNlri}
+    {mr : Option (Nat × List PNlri × Option Bytes)} {mu : Option (Nat × List PNlri)}
+    {r mr' : Option Reach} {u mu' : Option Unreach} {attrs : List Attr} {errs' : List (Nat × Nat)}
+    (h : assemble two s errs reach unreach mr mu = .ok (.update r mr' u mu' attrs errs')) :
+    errs' = errs ∧ ∀ a ∈ attrs, ∃ b ∈ s.attrs, b.code = a.code := by
+  unfold assemble at h
+  split at h
+  · cases h
+  · cases two with
+    | false =>
+      simp only [Bool.false_eq_true, if_false, Out.bind_ok] at h
+      injection h with h; injection h with _ _ _ _ h5 h6
+      subst h5 h6
+      exact ⟨rfl, fun a ha => ⟨a, ha, rfl⟩⟩
+    | true =>
+      simp only [if_true] at h
+      obtain ⟨l', hl, h⟩ := bind_eq_ok h
+      injection h with h; injection h with _ _ _ _ h5 h6
+      subst h5 h6
+      exact ⟨rfl, reconcileAs4_codes hl⟩
+
+theorem finalErrs_mem {s : AState} {reachLen attrEnd : Nat} {e : Nat × Nat}
+    (h : e ∈ finalErrs s reachLen attrEnd) : e ∈ s.errs ∨ e = (1, 0x40) ∨ e = (3, 0x40) ∨ e = (0, 0) := by
+  unfold finalErrs at h
+  simp only at h
+  repeat' split at h
+  all_goals
+    try simp only [List.mem_append, List.mem_singleton] at h
+    first
+      | exact Or.inl h
+      | (rcases h with h | h <;> first | exact Or.inl h | (subst h; simp))
+      | (rcases h with (h | h) | h <;> first | exact Or.inl h | (subst h; simp))
+      | (rcases h with ((h | h) | h) | h <;> first | exact Or.inl h | (subst h; simp))
+
+/-- every UPDATE the parser lets through satisfies the two side conditions of `validate_check_ok` -/
+theorem parse_update_invariants {dec : HypDec} {p : Profile} {c : Codec} {buf : Bytes} {hdrErr : Notif}
+    (hb : ∀ x ∈ buf, x < 256)
+    {r mr : Option Reach} {u mu : Option Unreach} {attrs : List Attr} {errs : List (Nat × Nat)}
+    (h : parseUpdateWith updateLens dec p c buf hdrErr = .ok (.update r mr u mu attrs errs)) :
+    (∀ e ∈ errs, e.2 < 256) ∧ (∀ e ∈ errs, errMustTaw e = false → ∀ a ∈ attrs, a.code ≠ e.1) := by
+  unfold parseUpdateWith at h
+  split at h
+  · cases h
+  · obtain ⟨⟨wl, al⟩, _, h⟩ := bind_eq_ok h
+    simp only at h
+    obtain ⟨reachLen, _, h⟩ := bind_eq_ok h
+    obtain ⟨s, hs, h⟩ := bind_eq_ok h
+    have hinv := attrLoop_inv c.two buf hb (23 + wl + al) (buf.length + 1) _ (LoopInv.init (23 + wl)) s hs
+    split at h
+    · cases h
+    · obtain ⟨reach, _, h⟩ := bind_eq_ok h
+      obtain ⟨unreach, _, h⟩ := bind_eq_ok h
+      obtain ⟨mpr, _, h⟩ := bind_eq_ok h
+      obtain ⟨mpu, _, h⟩ := bind_eq_ok h
+      obtain ⟨herrs, hattrs⟩ := assemble_update h
+      subst herrs
+      constructor
+      · intro e he
+        rcases finalErrs_mem he with h1 | rfl | rfl | rfl
+        · exact hinv.errOctets e h1
+        all_goals decide
+      · intro e he hnm a ha
+        rcases finalErrs_mem he with h1 | rfl | rfl | rfl
+        · obtain ⟨b, hb', hc⟩ := hattrs a ha
+          rw [← hc]
+          exact hinv.disjoint b hb' e h1
+        all_goals (exfalso; revert hnm; decide)
+
+theorem parseOpen_is_open {buf : Bytes} {hdrErr : Notif} {m : Msg} (h : parseOpen buf hdrErr = .ok m) :
+    ∃ a b c d, m = .open a b c d := by
+  unfold parseOpen at h
+  split at h
+  · cases h
+  · obtain ⟨v, _, h⟩ := bind_eq_ok h
+    split at h
+    · cases h
+    · obtain ⟨asn, _, h⟩ := bind_eq_ok h
+      obtain ⟨hold, _, h⟩ := bind_eq_ok h
+      split at h
+      · cases h
+      · obtain ⟨rid, _, h⟩ := bind_eq_ok h
+        split at h
+        · cases h
+        · obtain ⟨plen, _, h⟩ := bind_eq_ok h
+          split at h
+          · cases h
+          · obtain ⟨⟨as4, caps⟩, _, h⟩ := bind_eq_ok h
+            injection h with h
+            exact ⟨_, _, _, _, h.symm⟩
+
+theorem parseMessage_update {dec : HypDec} {p : Profile} {c : Codec} {buf : Bytes}
+    {r mr : Option Reach} {u mu : Option Unreach} {attrs : List Attr} {errs : List (Nat × Nat)}
+    (h : parseMessageWith updateLens dec p c buf = .ok (.update r mr u mu attrs errs)) :
+    ∃ hdrErr, parseUpdateWith updateLens dec p c buf hdrErr = .ok (.update r mr u mu attrs errs) := by
+  unfold parseMessageWith at h
+  split at h
+  · cases h
+  · obtain ⟨code, _, h⟩ := bind_eq_ok h
+    obtain ⟨d, _, h⟩ := bind_eq_ok h
+    simp only at h
+    split at h
+    · obtain ⟨_, _, _, _, ho⟩ := parseOpen_is_open h
+      cases ho
+    · split at h
+      · exact ⟨_, h⟩
+      · split at h
+        · split at h
+          · cases h
+          · obtain ⟨_, _, h⟩ := bind_eq_ok h
+            obtain ⟨_, _, h⟩ := bind_eq_ok h
+            obtain ⟨_, _, h⟩ := bind_eq_ok h
+            cases h
+        · split at h
+          · split at h <;> cases h
+          · split at h
+            · split at h
+              · cases h
+              · split at h
+                · cases h
+                · obtain ⟨_, _, h⟩ := bind_eq_ok h
+                  cases h
+            · cases h
+
+theorem take_bytes {src : Bytes} (hb : ∀ x ∈ src, x < 256) (n : Nat) : ∀ x ∈ src.take n, x < 256 :=
+  fun x hx => hb x (List.mem_of_mem_take hx)
+
+/-- packet-half master theorem: whatever bytes arrive, an UPDATE that `try_parse` returns is turned by
+    `validate_message` into a `Message` list that the (parsed-level) C05 reference checker accepts -/
+theorem update_validated_ok {dec : HypDec} {p : Profile} {c : Codec} {src : Bytes} (ebgp : Bool) {n : Nat}
+    {r mr : Option Reach} {u mu : Option Unreach} {attrs : List Attr} {errs : List (Nat × Nat)}
+    (hb : ∀ x ∈ src, x < 256)
+    (h : tryParse dec p c src = .msg n (.update r mr u mu attrs errs)) :
+    checkV ebgp r mr u mu attrs errs (validateMessage ebgp (.update r mr u mu attrs errs)) = .ok := by
+  have hpm : parseMessageWith updateLens dec p c (src.take n) = .ok (.update r mr u mu attrs errs) := by
+    unfold tryParse tryParseWith at h
+    split at h
+    · cases h
+    · split at h
+      · split at h
+        · cases h
+        · split at h
+          · cases h
+          · split at h
+            · rename_i m hm
+              injection h with h1 h2
+              subst h1 h2
+              exact hm
+            · cases h
+            · cases h
+      · cases h
+  obtain ⟨hdrErr, hpu⟩ := parseMessage_update hpm
+  obtain ⟨h1, h2⟩ := parse_update_invariants (take_bytes hb n) hpu
+  exact validate_check_ok ebgp r mr u mu attrs errs h1 h2
+
+/-! ## a reset comes only from the framing of the attribute block, a repeated MP attribute, or the NLRI -/
+
+/-- handling one attribute can end the session only for a second MP_REACH_NLRI / MP_UNREACH_NLRI -/
+theorem attrBody_err {two : Bool} {buf : Bytes} {s : AState} {flags code alen pos attrEnd : Nat} {e : Notif}
+    (hfit : pos + alen ≤ buf.length)
+    (h : attrBody two buf s flags code alen pos = .err e) :
+    (code = 14 ∨ code = 15) ∧ s.seen.contains code = true := by
+  unfold attrBody at h
+  split at h
+  · rename_i hseen
+    split at h
+    · rename_i hmp; exact ⟨hmp, hseen⟩
+    · cases h
+  · simp only at h
+    split at h
+    · cases h
+    · exfalso
+      unfold attrUnknown at h
+      split at h
+      · cases h
+      · split at h
+        · split at h
+          · omega
+          · cases hs : slice buf pos (pos + alen) with
+            | ok raw => simp [hs] at h
+            | err e' => simp [slice] at hs; split at hs <;> cases hs
+            | panic => simp [hs] at h
+        · cases h
+
+/-- "does not end the session" -/
+def Out.NE {α} (x : Out α) : Prop := ∀ e, x ≠ .err e
+
+theorem Out.NE_ok {α} (a : α) : (Out.ok a).NE := fun _ h => by cases h
+theorem Out.NE_panic {α} : (Out.panic : Out α).NE := fun _ h => by cases h
+
+theorem Out.NE_bind {α β} {x : Out α} {f : α → Out β} (hx : x.NE) (hf : ∀ a, (f a).NE) : (x >>= f).NE := by
+  cases x with
+  | ok a => exact hf a
+  | err e => exact absurd rfl (hx e)
+  | panic => exact Out.NE_panic
+
+theorem rd8_NE (b : Bytes) (i : Nat) : (rd8 b i).NE := by
+  unfold rd8; split
+  · exact Out.NE_ok _
+  · exact Out.NE_panic
+
+theorem slice_NE (b : Bytes) (s e : Nat) : (slice b s e).NE := by
+  unfold slice; split
+  · exact Out.NE_ok _
+  · exact Out.NE_panic
+
+theorem countHops_NE (bin : Bytes) : ∀ fuel pos count, (countHops bin fuel pos count).NE := by
+  intro fuel
+  induction fuel with
+  | zero => intro _ _; exact Out.NE_panic
+  | succ fuel ih =>
+    intro pos count
+    unfold countHops
+    split
+    · exact Out.NE_bind (rd8_NE _ _) fun _ => Out.NE_bind (rd8_NE _ _) fun _ => ih _ _
+    · exact Out.NE_ok _
+
+theorem takePrefix_NE (bin : Bytes) : ∀ fuel n pos out, (takePrefix bin fuel n pos out).NE := by
+  intro fuel
+  induction fuel with
+  | zero => intro _ _ _; exact Out.NE_panic
+  | succ fuel ih =>
+    intro n pos out
+    unfold takePrefix
+    split
+    · refine Out.NE_bind (rd8_NE _ _) fun t => Out.NE_bind (rd8_NE _ _) fun c => ?_
+      simp only
+      split
+      · exact Out.NE_bind (slice_NE _ _ _) fun _ => ih _ _ _
+      · split
+        · exact Out.NE_bind (slice_NE _ _ _) fun _ => ih _ _ _
+        · exact Out.NE_bind (slice_NE _ _ _) fun _ => ih _ _ _
+    · exact Out.NE_ok _
+
+theorem asPathReconcile_NE (a b : Bytes) : (asPathReconcile a b).NE := by
+  unfold asPathReconcile
+  refine Out.NE_bind (countHops_NE _ _ _ _) fun c1 => Out.NE_bind (countHops_NE _ _ _ _) fun c2 => ?_
+  split
+  · exact Out.NE_ok _
+  · exact Out.NE_bind (takePrefix_NE _ _ _ _ _) fun _ => Out.NE_ok _
+
+theorem binaryUnwrap_NE (a : Attr) : (binaryUnwrap a).NE := by
+  unfold binaryUnwrap; split
+  · exact Out.NE_ok _
+  · exact Out.NE_panic
+
+theorem mapFirst_NE (code : Nat) (f : Attr → Out Attr) (hf : ∀ a, (f a).NE) : ∀ l, (mapFirst code f l).NE := by
+  intro l
+  induction l with
+  | nil => exact Out.NE_ok _
+  | cons x xs ih =>
+    unfold mapFirst
+    split
+    · exact Out.NE_bind (hf x) fun _ => Out.NE_ok _
+    · exact Out.NE_bind ih fun _ => Out.NE_ok _
+
+theorem reconcileAs4_NE (attrs : List Attr) : (reconcileAs4 attrs).NE := by
+  unfold reconcileAs4
+  simp only
+  refine Out.NE_bind ?_ fun r => ?_
+  · unfold reconcileAgg
+    split
+    · refine Out.NE_bind ?_ fun asn => ?_
+      · unfold aggregatorAsn
+        exact Out.NE_bind (binaryUnwrap_NE _) fun _ => Out.NE_bind (slice_NE _ _ _) fun _ => Out.NE_ok _
+      · split
+        · exact Out.NE_bind (binaryUnwrap_NE _) fun _ =>
+            Out.NE_bind (mapFirst_NE _ _ (fun _ => Out.NE_ok _) _) fun _ => Out.NE_ok _
+        · exact Out.NE_ok _
+    · exact Out.NE_ok _
+  · split
+    · exact Out.NE_ok _
+    · unfold reconcilePath
+      split
+      · exact Out.NE_ok _
+      · exact mapFirst_NE _ _ (fun ap => Out.NE_bind (binaryUnwrap_NE _) fun _ =>
+          Out.NE_bind (binaryUnwrap_NE _) fun _ => Out.NE_bind (asPathReconcile_NE _ _) fun _ => Out.NE_ok _) _
+
+theorem assemble_NE (two : Bool) (s : AState) (errs : List (Nat × Nat)) (reach unreach : List PNlri)
+    (mr : Option (Nat × List PNlri × Option Bytes)) (mu : Option (Nat × List PNlri)) :
+    (assemble two s errs reach unreach mr mu).NE := by
+  unfold assemble
+  split
+  · exact Out.NE_ok _
+  · cases two with
+    | false => simp only [Bool.false_eq_true, if_false, Out.bind_ok]; exact Out.NE_ok _
+    | true => simp only [if_true]; exact Out.NE_bind (reconcileAs4_NE _) fun _ => Out.NE_ok _
+
+theorem subU64_NE (p : Profile) (a b : Nat) : (subU64 p a b).NE := by
+  unfold subU64
+  split
+  · exact Out.NE_ok _
+  · cases p
+    · exact Out.NE_panic
+    · exact Out.NE_ok _
+
+theorem bind_eq_err {α β} {x : Out α} {f : α → Out β} {e : Notif} (h : (x >>= f) = .err e) :
+    x = .err e ∨ ∃ a, x = .ok a ∧ f a = .err e := by
+  cases x with
+  | ok a => exact Or.inr ⟨a, rfl, h⟩
+  | err e' => left; injection h with h; rw [h]
+  | panic => cases h
+
+/-- where a session reset on an UPDATE can come from: the header length, the framing of the attribute block
+    (section lengths), the attribute loop (a repeated MP attribute, see `attrBody_err`), or locating / parsing the
+    NLRI (legacy fields or MP_REACH / MP_UNREACH payloads).  Never from `assemble` (End-of-RIB detection,
+    AS4 reconciliation) and never from the value of any other attribute. -/
+theorem update_reset_causes {dec : HypDec} {p : Profile} {c : Codec} {buf : Bytes} {hdrErr e : Notif}
+    (h : parseUpdateWith updateLens dec p c buf hdrErr = .err e) :
+    buf.length < 23 ∨ updateLens buf = .err e ∨
+    ∃ wl al, updateLens buf = .ok (wl, al) ∧
+      (attrLoop c.two buf (23 + wl + al) (buf.length + 1) { pos := 23 + wl } = .err e ∨
+       ∃ s, attrLoop c.two buf (23 + wl + al) (buf.length + 1) { pos := 23 + wl } = .ok s ∧
+         (legacyReach dec c buf (23 + wl + al) = .err e ∨ legacyUnreach dec c buf wl = .err e ∨
+          mpReachOf dec c s.mpReach = .err e ∨ mpUnreachOf dec c s.mpUnreach = .err e)) := by
+  unfold parseUpdateWith at h
+  split at h
+  · left; omega
+  · right
+    rcases bind_eq_err h with h | ⟨⟨wl, al⟩, hl, h⟩
+    · exact Or.inl h
+    · right
+      refine ⟨wl, al, hl, ?_⟩
+      simp only at h
+      rcases bind_eq_err h with h | ⟨reachLen, _, h⟩
+      · exact absurd h (subU64_NE _ _ _ e)
+      · rcases bind_eq_err h with h | ⟨s, hs, h⟩
+        · exact Or.inl h
+        · right
+          refine ⟨s, hs, ?_⟩
+          split at h
+          · cases h
+          · rcases bind_eq_err h with h | ⟨reach, _, h⟩
+            · exact Or.inl h
+            · rcases bind_eq_err h with h | ⟨unreach, _, h⟩
+              · exact Or.inr (Or.inl h)
+              · rcases bind_eq_err h with h | ⟨mpr, _, h⟩
+                · exact Or.inr (Or.inr (Or.inl h))
+                · rcases bind_eq_err h with h | ⟨mpu, _, h⟩
+                  · exact Or.inr (Or.inr (Or.inr h))
+                  · exact absurd h (assemble_NE _ _ _ _ _ _ _ e)
+
+/-- the attribute loop itself resets only through `attrBody`, i.e. only for a repeated MP attribute -/
+theorem attrLoop_err {two : Bool} {buf : Bytes} {attrEnd : Nat} (hEnd : attrEnd ≤ buf.length) {e : Notif} :
+    ∀ fuel (s : AState), attrLoop two buf attrEnd fuel s = .err e →
+      ∃ s' flags code alen pos, attrBody two buf s' flags code alen pos = .err e ∧ (code = 14 ∨ code = 15) ∧
+        s'.seen.contains code = true := by
+  intro fuel
+  induction fuel with
+  | zero => intro s h; simp [attrLoop] at h
+  | succ fuel ih =>
+    intro s h
+    unfold attrLoop at h
+    split at h
+    · rcases bind_eq_err h with h | ⟨hd, hh, h⟩
+      · exfalso
+        -- attrHeader never errs
+        unfold attrHeader at h
+        split at h
+        · cases h
+        · rcases bind_eq_err h with h | ⟨_, _, h⟩
+          · exact rd8_NE _ _ e h
+          · rcases bind_eq_err h with h | ⟨_, _, h⟩
+            · exact rd8_NE _ _ e h
+            · simp only at h
+              split at h
+              · split at h
+                · cases h
+                · rcases bind_eq_err h with h | ⟨_, _, h⟩
+                  · unfold rd16 at h
+                    rcases bind_eq_err h with h | ⟨_, _, h⟩
+                    · exact rd8_NE _ _ e h
+                    · rcases bind_eq_err h with h | ⟨_, _, h⟩
+                      · exact rd8_NE _ _ e h
+                      · cases h
+                  · cases h
+              · split at h
+                · cases h
+                · rcases bind_eq_err h with h | ⟨_, _, h⟩
+                  · exact rd8_NE _ _ e h
+                  · cases h
+      · cases hd with
+        | brk pos => cases h
+        | hdr flags code alen pos =>
+          simp only at h
+          split at h
+          · cases h
+          · rename_i hfit
+            rcases bind_eq_err h with h | ⟨s1, _, h⟩
+            · have := attrBody_err (attrEnd := attrEnd) (by omega) h
+              exact ⟨s, flags, code, alen, pos, h, this.1, this.2⟩
+            · exact ih s1 h
+    · cases h
+
 end Rbgp.Wire
